@@ -408,6 +408,95 @@ def add_setting_controls(rng, spec, p=1.0):
     return spec
 
 
+def apply_second_edits(wntr, wn, spec):
+    """edit the DEFINITION of an already simulated network through public setters (spec['second']['edits']) and return the spec that
+    describes the network as it is THEN (what the oracles of the second run must use)"""
+    import copy
+
+    sp = copy.deepcopy(spec)
+    sec = sp.pop("second")
+    links = {l["name"]: l for l in sp["links"]}
+    nodes = {n["name"]: n for n in sp["nodes"]}
+    for e in sec["edits"]:
+        op = e["op"]
+        if op == "curve_points":
+            wn.get_curve(e["curve"]).points = [tuple(p) for p in e["points"]]
+            sp["curves"][e["curve"]] = [list(p) for p in e["points"]]
+        elif op == "pump_curve":
+            wn.get_link(e["link"]).pump_curve_name = e["curve"]
+            links[e["link"]]["curve"] = e["curve"]
+        elif op == "link_attr":   # roughness, diameter, length, minor_loss, power
+            setattr(wn.get_link(e["link"]), e["attr"], e["value"])
+            links[e["link"]][e["attr"]] = e["value"]
+        elif op == "valve_initial_setting":
+            wn.get_link(e["link"]).initial_setting = e["value"]
+            links[e["link"]]["setting"] = e["value"]
+        elif op == "pattern":
+            wn.get_pattern(e["name"]).multipliers = list(e["mults"])
+            sp["patterns"][e["name"]] = list(e["mults"])
+        elif op == "base_demand":
+            wn.get_node(e["node"]).demand_timeseries_list[e["index"]].base_value = e["value"]
+            nodes[e["node"]]["demands"][e["index"]]["base"] = e["value"]
+        elif op == "demand_multiplier":
+            wn.options.hydraulic.demand_multiplier = e["value"]
+            sp["options"]["demand_multiplier"] = e["value"]
+        elif op == "hw_approx":
+            sp["hw_approx"] = e["value"]
+        else:
+            raise ValueError("unknown second-run edit %r" % (e,))
+    if sec.get("reset"):
+        wn.reset_initial_values()
+        sp["controls"] = sp.get("controls", [])
+    else:
+        wn.options.time.duration = sp["options"]["duration"] + sec.get("extend", 2) * sp["options"]["hydraulic_timestep"]
+        sp["options"]["duration"] = wn.options.time.duration
+    return sp, sec
+
+
+def add_second_run(rng, spec):
+    """attach a run -> edit -> run plan: 1-4 edits of the definition applicable to this network"""
+    edits = []
+    heads = [l for l in spec["links"] if l["type"] == "pump" and l["pump_type"] == "HEAD"]
+    pipes = [l for l in spec["links"] if l["type"] == "pipe"]
+    valves = [l for l in spec["links"] if l["type"] == "valve"]
+    powers = [l for l in spec["links"] if l["type"] == "pump" and l["pump_type"] == "POWER"]
+    reset = rng.random() < 0.5
+    for l in heads:
+        pts = spec["curves"][l["curve"]]
+        if rng.random() < 0.75:   # same number of points, a different pump
+            f = rng.uniform(0.6, 0.85)
+            edits.append({"op": "curve_points", "curve": l["curve"], "points": [[p[0], round(p[1] * f, 3)] for p in pts]})
+        elif len(heads) == 1:
+            cn = "curveX"
+            spec["curves"][cn] = random_pump_curve(rng)
+            edits.append({"op": "pump_curve", "link": l["name"], "curve": cn})
+    for l in rng.sample(pipes, min(len(pipes), 2)):
+        attr = rng.choice(["roughness", "diameter", "length", "minor_loss"])
+        val = {"roughness": float(rng.choice([60, 80, 120, 150])), "diameter": rng.choice([0.12, 0.18, 0.35]), "length": _r(rng, 50, 1200, 1),
+               "minor_loss": _r(rng, 0.5, 12, 2)}[attr]
+        edits.append({"op": "link_attr", "link": l["name"], "attr": attr, "value": val})
+    for l in powers[:1]:
+        edits.append({"op": "link_attr", "link": l["name"], "attr": "power", "value": _r(rng, 500, 15000, 1)})
+    if valves and reset:
+        l = rng.choice(valves)
+        new = round(l["setting"] * (5.0 if l["valve_type"] == "TCV" else 0.8), 6)
+        edits.append({"op": "valve_initial_setting", "link": l["name"], "value": new})
+    if spec["patterns"] and rng.random() < 0.7:
+        pn = rng.choice(sorted(spec["patterns"]))
+        edits.append({"op": "pattern", "name": pn, "mults": [round(abs(m) * rng.uniform(0.5, 1.5) + 0.05, 3) for m in spec["patterns"][pn]]})
+    js = [n for n in spec["nodes"] if n["type"] == "junction" and n.get("demands")]
+    if js and rng.random() < 0.7:
+        n = rng.choice(js)
+        edits.append({"op": "base_demand", "node": n["name"], "index": len(n["demands"]) - 1, "value": _r(rng, 0.0005, 0.008, 5)})
+    if rng.random() < 0.3:
+        edits.append({"op": "demand_multiplier", "value": rng.choice([0.7, 1.5])})
+    if rng.random() < 0.3:
+        edits.append({"op": "hw_approx", "value": "piecewise" if spec.get("hw_approx") != "piecewise" else "default"})
+    spec["second"] = {"edits": edits, "reset": reset, "new_sim": rng.random() < 0.5, "extend": rng.randint(1, 3)}
+    spec.setdefault("features", {})["edit_between_runs"] = True
+    return spec
+
+
 def effective_links(spec):
     """the link dicts with the start / end nodes they have AFTER spec['edits'] (what the oracles must use)"""
     links = [dict(l) for l in spec["links"]]
